@@ -80,6 +80,9 @@ func genCountCfg(g *vkit.Rand, typ string) schemaCfg {
 			c.GB = int32(g.Range(3, int(c.G)))
 		}
 		c.LB = int32(g.Range(1, int(c.GB)))
+		if c.GB >= c.G && g.Bool() {
+			c.LB = int32(g.Range(int(c.L), int(c.GB))) // the shape admission accepts: burst >= qps for both buckets
+		}
 	}
 	return c
 }
